@@ -6,6 +6,7 @@ extern int sc_choice[], sc_nen[], sc_cur_en[], sc_who[], sc_np, sc_prefix[], sc_
 extern int sc_deadlock, sc_livelock, sc_overflow, sc_diverged;
 void sc_run(int nt, void (*body)(int tid));
 int sc_clock(void);
+void sc_yield(void);
 int sc_self(void);
 int sc_lock_depth(void *m);
 int sc_lock_owner(void *m);
